@@ -109,6 +109,10 @@ def _distribute_try(computation_graph: ComputationGraph,
             var_hosted.update({c: a})
             agents_capa[a] -= computation_memory(
                 computation_graph.computation(c))
+        if agents_capa[a] < 0:
+            raise ImpossibleDistributionException(
+                'Not enough capacity on {} for the computations it must '
+                'host: {}'.format(a, hints.must_host(a)))
 
     # First mimic original secp adhoc behavior
     for n in nodes:
@@ -174,9 +178,9 @@ def _distribute_try(computation_graph: ComputationGraph,
                     'Could not find feasible distribution after {} '
                     'attempts'.format(attempt))
             else:
-                _distribute_try(computation_graph, agents, hints,
-                                computation_memory, computation_graph,
-                                attempt+1)
+                return _distribute_try(computation_graph, agents, hints,
+                                       computation_memory, communication_load,
+                                       attempt+1)
 
         mapping[selected].update({n.name})
         var_hosted[n.name] = selected
